@@ -149,6 +149,9 @@ def find_mark(f, start, env):
 EVENTS = [
     ("def", "(define hx{k} {k})", "ok"),
     ("fn", "(define (hf{k} n) (+ n {k}))", "ok"),
+    # the same global defined again and again, and a unit that redefines it but fails to build (the last successful value must stay)
+    ("redef", "(define hshared {k})", "ok"),
+    ("redef-fail", "(begin (define hshared 'bad) (hundefined{k} 2))", "err"),
     ("parse-err", "(car '(1 2", "err"),
     ("free-id", "(begin (define hz{k} 1) (hundefined{k} 2))", "err"),
     ("rt-err", "(begin (define hy{k} 7) (car hy{k}))", "err"),
@@ -181,6 +184,7 @@ def work_hist(lst):
         steps = [PROBE_DEF]
         plan = []
         defs = []
+        shared = None
         for k, ei in enumerate(seq):
             name, tmpl, want = EVENTS[ei]
             steps.append(tmpl.replace("{k}", str(k)).replace("{MOD}", MODFILE))
@@ -195,9 +199,12 @@ def work_hist(lst):
                 defs.append(("(hf%d 1)" % k, "(i %d)" % (k + 1)))
             if name == "rt-err":
                 defs.append(("hy%d" % k, "(i 7)"))  # the define executed before the error: stays bound
-            if defs:
-                steps.append("(list %s)" % " ".join(d for d, w in defs))
-                plan.append(("defs", "(lst %s)" % " ".join(w for d, w in defs), name))
+            if name == "redef":
+                shared = k
+            alld = defs + ([("hshared", "(i %d)" % shared)] if shared is not None else [])
+            if alld:
+                steps.append("(list %s)" % " ".join(d for d, w in alld))
+                plan.append(("defs", "(lst %s)" % " ".join(w for d, w in alld), name))
         cases.append({"id": hid, "steps": steps})
         plans[hid] = plan
     res = common.run_cases(cases, env=None, batch=1, timeout_ms=30000)
